@@ -108,6 +108,7 @@ def run(run, replay=None):
     pool = good
     for k, c in enumerate(rng.sample(pool, min(8, len(pool)))):
         z = copy.deepcopy(c)
+        z['canary_of'] = z['id']
         z['id'] = 'canary-%d' % k
         if k % 2:
             z['end'] = 'parse'
